@@ -21,7 +21,7 @@ ANCHOR_FILES = _simp.ANCHOR_FILES
 ASSUMPTIONS = ['vt.refsem truth tables; vt.wf for the result']
 REQUIRED = {'mon:transform.checked': 200, 'mon:apply_transformers.checked': 100, 'mon:cleanup.checked': 50,
             'changed': 100, 'form:pipe': 50, 'form:list': 50, 'leaf:RRG_in': 20, 'leaf:MEG': 20, 'leaf:MUO': 20,
-            'leaf:MDG': 20, 'leaf:RRG': 20, 'deep_circuits': 2}
+            'leaf:MDG': 20, 'leaf:RRG': 20, 'deep_circuits': 2, 'arguments_with_blocks': 30}
 
 
 def shards(tier, seed):
@@ -55,6 +55,8 @@ def check_case(case, ctx):
             _simp.CUR['case'] = case
             net = refsem.net_of(c)
             ctx.count('edited_circuits')
+        if case['rseed'] % 4 == 1 and netgen.mark_up(c, random.Random(case['rseed'] ^ 0x5a5a)):
+            ctx.count('arguments_with_blocks')
     sh = refsem.structural_hash(net)
     for form, desc in case['calls']:
         nviol = sum(ctx._viol_count.values())
